@@ -91,6 +91,8 @@ struct strpdt_s {
 	int32_t zdiff:31;
 	/* and 1 to indicate if it was specified */
 	int32_t zngvn:1;
+	/* whether I was specified, 0 is an epoch value too */
+	unsigned int igvn:1;
 };
 
 /* used for arithmetic */
@@ -756,7 +758,7 @@ dt_strpdt(const char *str, const char *fmt, char **ep)
 		goto fucked;
 	}
 	/* check if it's a sexy type */
-	if (d.i) {
+	if (d.i || d.igvn) {
 		res.typ = DT_SEXY;
 		res.sexy = d.i;
 	} else {
